@@ -64,7 +64,7 @@ def hl_step(draw, n, names, partitioned, positional_only=False, depth=None):
     if partitioned and depth is not None and not positional_only:
         # operations whose partitioned implementation decides between "per partition" and "across partitions" by the axis: the
         # outermost axis spelled 0 and -depth, inner axes in both spellings (added after the seeded changes C03-e and C09-e were missed)
-        kinds = kinds + ["pad_none", "pad_none", "reduce_axis", "reduce_axis", "num_axis"]
+        kinds = kinds + ["pad_none", "pad_none", "reduce_axis", "reduce_axis", "num_axis", "sort_axis", "sort_axis"]
     op = draw(st.sampled_from(kinds))
     b = st.one_of(st.none(), st.integers(-n - 2, n + 2))
     if op == "concat_self_at":
@@ -79,12 +79,18 @@ def hl_step(draw, n, names, partitioned, positional_only=False, depth=None):
                 "axis": draw(st.sampled_from(axes)), "keepdims": draw(st.booleans()), "mask_identity": draw(st.booleans())}
     if op == "num_axis":
         return {"op": op, "axis": draw(st.sampled_from([0, -depth] + ([1, 1 - depth] if depth >= 2 else [])))}
+    if op == "sort_axis":
+        # as for reducers: the outermost axis only where it is also the innermost (sorting across lists is other properties' known findings)
+        axes = [0, -1] if depth == 1 else [depth - 1, -1]
+        return {"op": op, "fn": draw(st.sampled_from(["sort", "argsort"])), "axis": draw(st.sampled_from(axes)), "ascending": draw(st.booleans())}
     if op == "at":
         return {"op": op, "i": draw(st.integers(-n - 1, n))}
     if op == "range":
         return {"op": op, "start": draw(b), "stop": draw(b), "step": draw(st.sampled_from([None, None, 1, 1, 2, 3, -1, -2]))}
     if op == "index":
-        return {"op": op, "index": draw(st.lists(st.integers(-n, n - 1) if n else st.just(0), min_size=0 if n else 0, max_size=5 if n else 0))}
+        idx = draw(st.lists(st.integers(-n, n - 1) if n else st.just(0), min_size=0 if n else 0, max_size=5 if n else 0))
+        dts = ["int64", "int64", "int32", "int8"] + (["uint8", "uint16", "uint32", "uint64"] if all(i >= 0 for i in idx) else [])
+        return {"op": op, "index": idx, "dtype": draw(st.sampled_from(dts))}
     if op == "mask":
         return {"op": op, "mask": draw(st.lists(st.booleans(), min_size=n, max_size=n))}
     if op == "num":
@@ -199,7 +205,7 @@ def papply(A, x, spec):
     if op == "field":
         return x[spec["name"]]
     if op == "index":
-        return x[np.array(spec["index"], dtype=np.int64)]
+        return x[np.array(spec["index"], dtype=np.dtype(spec.get("dtype", "int64")))]
     if op == "mask":
         return x[np.array(spec["mask"], dtype=np.bool_)]
     if op == "num":
@@ -236,6 +242,8 @@ def papply(A, x, spec):
         return getattr(A, spec["name"])(x, axis=spec["axis"], keepdims=spec["keepdims"], mask_identity=spec["mask_identity"])
     if op == "num_axis":
         return A.num(x, axis=spec["axis"])
+    if op == "sort_axis":
+        return getattr(A, spec["fn"])(x, axis=spec["axis"], ascending=spec["ascending"], stable=True)
     raise HarnessError("unknown high-level op " + op)
 
 
@@ -544,7 +552,7 @@ def run_ppartition(case):
             if have is not None and [x for x in have if x != 0] != want and len(esrc[src]) > 0:
                 raise Violation("ppartition:lengths|repartition", "ak.repartition(%r) gives other partition lengths" % (lens,), expected=want, observed=have)
         if nonempty > 1 and op in ("at", "range", "index", "mask", "sum", "num", "flatten", "add1", "to_json", "repartition", "to_list", "concat_self",
-                                   "concat_self_len", "concat_self_at", "pad_none", "reduce_axis", "num_axis"):
+                                   "concat_self_len", "concat_self_at", "pad_none", "reduce_axis", "num_axis", "sort_axis"):
             nontrivial = True
         if op in ("range", "repartition", "concat_self") and isinstance(eres, A.Array) and isinstance(vres, A.Array):
             esrc[j], psrc[j] = eres, vres
